@@ -251,3 +251,83 @@ func VerifC11Pool() {
 
 // int64OrDur: seconds to Duration.
 func int64OrDur(sec int) time.Duration { return time.Duration(sec) * time.Second }
+
+// VerifC11Checkins: a reporter (a host when hostreporter=1, else a client) tracks peers of the opposite role; time
+// passes beyond the expiry window; each peer then checks in with the pool in one of the ways the API offers (its own
+// keep-alive, or connecting again) or stays silent; the reporter's keep-alive must keep exactly the peers that
+// checked in and declare the silent ones invalid once.
+func VerifC11Checkins() {
+	db := newVerifStore()
+	p := VerifNewPool(db, db, big.NewInt(1000), 60000000000, nil)
+	t0 := verifapi.Time("t0")
+	verifapi.SetNow(t0)
+	hostReporter := verifapi.Param("hostreporter", 1) == 1
+	np := verifapi.Param("peers", 2)
+	rid := verifapi.NodeID(0)
+	rsvc := &VerifHost{Addr: "192.0.2.9:1"}
+	if _, err := VerifConnect(p, rsvc, rid, hostReporter, ""); err != nil {
+		verifapi.Unreachable("c11.checkins.reporter-connect")
+		return
+	}
+	pids := make([]string, np)
+	svcs := make([]*VerifHost, np)
+	for i := 0; i < np; i++ {
+		pids[i] = verifapi.NodeID(1 + i)
+		svcs[i] = &VerifHost{Addr: fmt.Sprintf("192.0.2.%d:1", 20+i)}
+		if _, err := VerifConnect(p, svcs[i], pids[i], !hostReporter, ""); err != nil {
+			verifapi.Unreachable("c11.checkins.peer-connect")
+			return
+		}
+	}
+	if _, err := VerifUpdate(p, context.Background(), rid, pids...); err != nil {
+		verifapi.Observe("err", err.Error()); verifapi.Unreachable("c11.checkins.first")
+		return
+	}
+	dt := verifapi.Dur("dt")
+	verifapi.Assume(int64(dt) > 2*60000000000)
+	verifapi.Assume(int64(dt) < 1000000000000)
+	verifapi.SetNow(t0.Add(dt))
+	checked := make([]bool, np)
+	for i := 0; i < np; i++ {
+		switch verifapi.Choose(fmt.Sprint("checkin", i), 3) {
+		case 1:
+			if _, err := VerifUpdate(p, context.Background(), pids[i]); err != nil {
+				verifapi.Observe("err", err.Error()); verifapi.Unreachable("c11.checkins.peer-update")
+				return
+			}
+			checked[i] = true
+		case 2:
+			if _, err := VerifConnect(p, svcs[i], pids[i], !hostReporter, ""); err != nil {
+				verifapi.Unreachable("c11.checkins.peer-reconnect")
+				return
+			}
+			checked[i] = true
+		}
+	}
+	resp, err := VerifUpdate(p, context.Background(), rid, pids...)
+	verifapi.Reach("c11.checkins.second")
+	if err != nil {
+		verifapi.Unreachable("c11.checkins.second-error")
+		return
+	}
+	tracked, _ := db.NodePeers(store.NodeID(rid))
+	for i := 0; i < np; i++ {
+		nInv, nTr := 0, 0
+		for _, x := range resp.InvalidPeers {
+			if x == pids[i] {
+				nInv++
+			}
+		}
+		for _, n := range tracked {
+			if string(n.ID) == pids[i] {
+				nTr++
+			}
+		}
+		if checked[i] {
+			verifapi.Assert(nInv == 0 && nTr == 1, "c11.checkins.checked-in-peer-kept")
+		} else {
+			verifapi.Assert(nInv == 1 && nTr == 0, "c11.checkins.silent-peer-invalid-once")
+		}
+	}
+	verifapi.Assert(len(resp.InvalidPeers) <= np, "c11.checkins.no-extra-invalid")
+}
